@@ -226,12 +226,21 @@ class TlcResult:
     def clean(self):
         return self.rc == 0 and not self.errors
 
-    def tuples(self, tag):
-        """PrintT output lines of the form <<"TAG", ...>> parsed into python lists."""
+    def tuples(self, tag, limit=3000):
+        """PrintT output lines of the form <<"TAG", ...>> parsed into python lists (at most `limit` of them: a defect that
+        makes every record disagree prints tens of thousands)."""
         res = []
         for m in re.finditer(r'^<<\s*"%s"' % tag, self.out, re.M):
             res.append(parse_tla_value(self.out, m.start()))
+            if len(res) >= limit:
+                break
         return res
+
+
+_RE_FIELD = re.compile(r"([A-Za-z_0-9]+)\s*\|->")
+_RE_INT = re.compile(r"-?\d+")
+_RE_BOOL = re.compile(r"TRUE|FALSE")
+_RE_IDENT = re.compile(r"[A-Za-z_][A-Za-z_0-9]*")
 
 
 def parse_tla_value(s, start=0):
@@ -283,10 +292,10 @@ def parse_tla_value(s, start=0):
             rec = {}
             while True:
                 ws()
-                m = re.match(r"([A-Za-z_0-9]+)\s*\|->", s[pos[0]:])
+                m = _RE_FIELD.match(s, pos[0])
                 if not m:
-                    raise ValueError("bad record at %d in %r" % (pos[0], s[:200]))
-                pos[0] += m.end()
+                    raise ValueError("bad record at %d in %r" % (pos[0], s[pos[0]:pos[0] + 200]))
+                pos[0] = m.end()
                 rec[m.group(1)] = val()
                 ws()
                 if s.startswith(",", pos[0]):
@@ -306,17 +315,17 @@ def parse_tla_value(s, start=0):
                 j += 1
             pos[0] = j + 1
             return "".join(buf)
-        m = re.match(r"-?\d+", s[pos[0]:])
+        m = _RE_INT.match(s, pos[0])
         if m:
-            pos[0] += m.end()
+            pos[0] = m.end()
             return int(m.group(0))
-        m = re.match(r"TRUE|FALSE", s[pos[0]:])
+        m = _RE_BOOL.match(s, pos[0])
         if m:
-            pos[0] += m.end()
+            pos[0] = m.end()
             return m.group(0) == "TRUE"
-        m = re.match(r"[A-Za-z_][A-Za-z_0-9]*", s[pos[0]:])
+        m = _RE_IDENT.match(s, pos[0])
         if m:
-            pos[0] += m.end()
+            pos[0] = m.end()
             return m.group(0)
         raise ValueError("cannot parse at %d in %r" % (pos[0], s[:200]))
 
